@@ -19,6 +19,7 @@ func init() {
 			"R3": "no lost update between additive top-ups and an absolute settlement write",
 			"R4": "start stack = PlayerStates[k].Bankroll for k = elem(GamePlayerIndexes), no arithmetic; bankrolls (like every other table field) survive the JSON clone made at every hand open",
 			"R5": "one top-up store per call, not in a loop",
+			"R8": "a refused membership operation leaves no chips behind: no engine membership operation reaches an error exit after it added player records or changed a bankroll (all-or-nothing, as C03.R3, restricted to what holds chips)",
 			"R7": "every exported engine operation that writes the bankroll of an existing player holds the engine mutex from entry (the hand opening replaces the table by a clone under that mutex)",
 			"R6": "departures only drop: the leave computation stores to no TablePlayerState field; no append onto a truncated re-slice of a list the function did not allocate (in-place filtering of the live player list); after a departure during a hand the hand's index list is re-mapped through id → position in the NEW player list (as C02.R4), so results keep being credited to their owners",
 		},
@@ -126,6 +127,7 @@ func checkC01(c *Ctx) {
 	p := c.P
 	checkCloneCompleteness(c, "R4")
 	checkPlayerRecordWritersLocked(c, "R7", "Bankroll", "the bankroll")
+	checkErrorPurity(c, "R8", recordWatch("chips", []string{"PlayerStates"}, true), "player records / a bankroll", 2)
 	var writers []bankrollWriter
 	for _, ss := range p.FieldStores("TablePlayerState", "Bankroll") {
 		shape, d := classifyBankrollStore(p, ss)
